@@ -1,6 +1,9 @@
 //! F flavour ("faults"): real threads; the simulator owns the stored bytes, the output I/O
 //! points, process death and pack availability.
 
+mod c09;
+mod c11;
+mod c12;
 mod campaign;
 mod hooks;
 
@@ -136,6 +139,34 @@ fn main() {
             }
         }
         "child-damage" => campaign::child_main(&args),
+        "c09" => {
+            if let Some(f) = args.replay.clone() {
+                c09::replay_main(&args, &f)
+            } else if let Some((w, n)) = args.worker {
+                c09::worker_main(&args, w, n)
+            } else {
+                c09::parent_main(&args)
+            }
+        }
+        "child-c09" => c09::child_main(&args),
+        "c12" => {
+            if let Some(f) = args.replay.clone() {
+                c12::replay_main(&args, &f)
+            } else if let Some((w, n)) = args.worker {
+                c12::worker_main(&args, w, n)
+            } else {
+                c12::parent_main(&args)
+            }
+        }
+        "c11" => {
+            if let Some(f) = args.replay.clone() {
+                c11::replay_main(&args, &f)
+            } else if let Some((w, n)) = args.worker {
+                c11::worker_main(&args, w, n)
+            } else {
+                c11::parent_main(&args)
+            }
+        }
         other => simcore::harness_error(&format!("unknown command {other:?}")),
     }
 }
